@@ -24,10 +24,11 @@ type Env struct {
 	old   *Env
 	reach *Term
 	depth int
+	pkg   *ssa.Package // package whose names are in scope (the contract's package)
 }
 
 func (e *Env) child() *Env {
-	n := &Env{fg: e.fg, vars: map[string]CVal{}, st: e.st, old: e.old, reach: e.reach, depth: e.depth + 1}
+	n := &Env{fg: e.fg, vars: map[string]CVal{}, st: e.st, old: e.old, reach: e.reach, depth: e.depth + 1, pkg: e.pkg}
 	for k, v := range e.vars {
 		n.vars[k] = v
 	}
@@ -171,7 +172,18 @@ func (e *Env) eval(ce *CE) (CVal, error) {
 		if ce.Op == "forall" {
 			return CVal{T: Forall(bvs, body)}, nil
 		}
-		return CVal{T: Exists(bvs, body)}, nil
+		ex := Exists(bvs, body)
+		if len(bvs) == 1 && bvs[0].Sort == SInt && len(fg.witnesses) > 0 {
+			// (exists i. P(i)) is equivalent to (P(w1) or ... or exists i. P(i)): candidate witnesses (loop indices)
+			// are offered to the solver, which cannot guess them by E-matching through arithmetic
+			alts := []*Term{}
+			for _, w := range fg.witnesses {
+				alts = append(alts, Subst(body, map[string]*Term{bvs[0].Op: w}))
+			}
+			alts = append(alts, ex)
+			return CVal{T: Or(alts...)}, nil
+		}
+		return CVal{T: ex}, nil
 	case "binop":
 		return e.binop(ce)
 	case "field":
@@ -268,8 +280,9 @@ func (e *Env) indexVal(x, i CVal) (CVal, error) {
 		return CVal{T: Select(x.T, i.T)}, nil
 	case x.T.Sort == SInt && x.Ty != nil:
 		if mt, ok := x.Ty.Underlying().(*types.Map); ok {
-			_, val := fg.mapVars(mt, e.st)
-			return CVal{T: Select(Select(val, x.T), i.T), Ty: mt.Elem()}, nil
+			dom, val := fg.mapVars(mt, e.st)
+			in := And(Neq(x.T, IntLit(0)), Select(Select(dom, x.T), i.T))
+			return CVal{T: Ite(in, Select(Select(val, x.T), i.T), fg.g.ti.zeroOf(mt.Elem())), Ty: mt.Elem()}, nil
 		}
 	}
 	return CVal{}, fmt.Errorf("cannot index value of sort %s", x.T.Sort)
@@ -761,7 +774,7 @@ func (e *Env) call(ce *CE) (CVal, error) {
 			}
 			return CVal{T: App("uf_"+name, sortOfDeclType(sp.SpecSort), ts...), Ty: ty}, nil
 		}
-		sub := &Env{fg: fg, vars: map[string]CVal{}, st: e.st, old: e.old, reach: e.reach, depth: e.depth + 1}
+		sub := &Env{fg: fg, vars: map[string]CVal{}, st: e.st, old: e.old, reach: e.reach, depth: e.depth + 1, pkg: e.pkg}
 		for i, pn := range sp.ParamNames {
 			v, err := e.eval(args[i])
 			if err != nil {
@@ -809,6 +822,9 @@ func (e *Env) callGo(ce *CE, name string, fn *CE, args []*CE) (CVal, bool, error
 			}
 		}
 	}
+	if target == nil && fn.Kind == "ident" && e.pkg != nil {
+		target = e.pkg.Func(name)
+	}
 	if target == nil && fn.Kind == "ident" && fg.fn != nil && fg.fn.Pkg != nil {
 		target = fg.fn.Pkg.Func(name)
 	}
@@ -849,6 +865,27 @@ func (e *Env) callGo(ce *CE, name string, fn *CE, args []*CE) (CVal, bool, error
 	}
 	// run with obligations and assumptions discarded? assumptions (definitions) are needed; obligations are dropped.
 	savedObls := len(fg.obls)
+	savedAssumes := len(fg.assumes)
+	bound := false
+	for _, t := range terms {
+		if hasBound(t) {
+			bound = true
+		}
+	}
+	savedNoDefs := fg.noDefs
+	hasContract := fg.g.contracts[target.String()] != nil
+	// inlined leaf functions are evaluated to closed terms: no definitional constants, no assumptions (so that the same
+	// call on the same state gives the same term); contract applications keep their assumptions unless under a binder
+	dropAssumes := bound || !hasContract
+	if dropAssumes {
+		fg.noDefs = true
+	}
+	defer func() {
+		fg.noDefs = savedNoDefs
+		if dropAssumes {
+			fg.assumes = fg.assumes[:savedAssumes]
+		}
+	}()
 	fr := fg.newFrame(fg.fn, 1, fmt.Sprintf("spec%d~", fg.fresh))
 	fg.fresh++
 	var res []*Term
@@ -856,7 +893,16 @@ func (e *Env) callGo(ce *CE, name string, fn *CE, args []*CE) (CVal, bool, error
 		d := callDesc{static: target, full: target.String(), short: shortDesc(target.String()), sig: target.Signature}
 		res, _ = fg.applyContract(fr, ct, d, terms, tys, e.st, True, 0, "specapp_"+target.Name())
 	} else {
-		res, _ = fg.inline(fr, target, terms, e.st, True, "speccall_"+target.Name())
+		// the body over parameter placeholders becomes an SMT define-fun; the application keeps its arguments as they are
+		var params []*Term
+		for i, p := range target.Params {
+			params = append(params, Bound(fmt.Sprintf("a%d!%s", i, sanitize(target.Name())), fg.g.ti.sortOf(p.Type())))
+		}
+		bodies, _ := fg.inline(fr, target, params, e.st, True, "speccall_"+target.Name())
+		for i, b := range bodies {
+			d := fg.leafDef(sanitize(shortDesc(target.String())), params, b, i)
+			res = append(res, App(d.Name, d.Sort, terms...))
+		}
 	}
 	fg.obls = fg.obls[:savedObls]
 	sig := target.Signature
@@ -945,6 +991,11 @@ func (fg *FnGen) specLastIndex(s, c *Term) *Term {
 func (e *Env) lookupPackageName(name string) (CVal, bool) {
 	fg := e.fg
 	var pkg *ssa.Package
+	if e.pkg != nil {
+		if v, ok := e.memberVal(e.pkg, name); ok {
+			return v, true
+		}
+	}
 	if fg.fn != nil && fg.fn.Pkg != nil {
 		pkg = fg.fn.Pkg
 	} else if fg.ct != nil {
